@@ -215,7 +215,7 @@ def step(ctx, model="single", kind_="euler", nel=1, N=3, bcs=((None, None),)):
     ctx.prove("profile handed to the iterator is not modified", ctx.all([ctx.eq(x[e, i], x0[e][i]) for e in range(nel) for i in range(N)]))
 
 
-def clip(ctx, nel=2, N=2):
+def clip(ctx, nel=2, N=2, both=False):
     """postProcess output range; setup: floor, idempotence, composition BCs on the end nodes"""
     m, dz, x, vals = mk_model(ctx, SinglePhaseModel, nel, N, tuple((COMP if e == 0 else None, None) for e in range(nel)))
     mc = ctx.real("minComposition", (1e-4, 1e-2)); ctx.assume(mc > 0); ctx.assume(mc < 0.1)
@@ -229,7 +229,7 @@ def clip(ctx, nel=2, N=2):
             ctx.prove("postProcess leaves admissible compositions alone", ctx.implies(inside, ctx.eq(m.x[e, i], xin[e, i])))
     ctx.prove("postProcess never requests a stop", stop is False)
     # ---- setup on a fresh model
-    m2, dz2, x2, vals2 = mk_model(ctx, SinglePhaseModel, nel, N, tuple((COMP if e == 0 else None, None) for e in range(nel)), tag="s_")
+    m2, dz2, x2, vals2 = mk_model(ctx, SinglePhaseModel, nel, N, tuple((COMP if e == 0 else None, COMP if (e == 0 and both) else None) for e in range(nel)), tag="s_")
     m2.constraints.minComposition = mc
 
     class St:
@@ -241,6 +241,8 @@ def clip(ctx, nel=2, N=2):
             ctx.assume(prof[e, i] >= 0)
         ctx.assume(sum(prof[e, i] for e in range(nel)) <= 1)
     lv = vals2[0][0]; ctx.assume(lv >= 0); ctx.assume(lv + sum(prof[e, 0] for e in range(1, nel)) <= 1)
+    if both:
+        ctx.assume(vals2[0][1] >= 0); ctx.assume(vals2[0][1] + sum(prof[e, N - 1] for e in range(1, nel)) <= 1)
     m2.x = prof
     m2.compositionProfile.buildProfile = lambda els, xx, z: None        # profile builders are inputs of the property, not its subject
     m2.setup()
@@ -252,6 +254,10 @@ def clip(ctx, nel=2, N=2):
     nall = nel + 1
     expect = ctx.ite(lv > mc, ctx.ite(lv - nall * mc >= mc, lv - nall * mc, mc), mc)
     ctx.prove("setup puts the fixed-composition value on the end node (then shifted/floored like every node)", ctx.eq(m2.x[0, 0], expect))
+    if both:
+        rv = vals2[0][1]
+        expect_r = ctx.ite(rv > mc, ctx.ite(rv - nall * mc >= mc, rv - nall * mc, mc), mc)
+        ctx.prove("setup puts the right fixed-composition value on the right end node as well", ctx.eq(m2.x[0, N - 1], expect_r))
     m2.setup()
     ctx.prove("second setup call (next solve) does not change the profile", ctx.all([ctx.eq(m2.x[e, i], after1[e][i]) for e in range(nel) for i in range(N)]))
     ctx.prove("second setup call does not add a record", len(m2._recordedTime) == nrec)
@@ -279,5 +285,5 @@ HARNESSES = [
                               {"model": "homog", "kind_": "euler", "nel": 1, "N": 3, "bcs": B1[1]}, {"model": "single", "kind_": "euler", "nel": 2, "N": 2, "bcs": B2[1]}],
                     "thorough": [{"model": mo, "kind_": k, "nel": 1, "N": 3, "bcs": b} for mo in ("single", "homog") for k in ("euler", "rk4") for b in B1[:3]]}),
     Harness("C04.clip", clip, functions=_F, assumptions=_A + ["initial profile >= 0 with node sums <= 1"], stubs=_S,
-            params={"quick": [{"nel": 1, "N": 2}, {"nel": 2, "N": 2}], "thorough": [{"nel": 2, "N": 3}, {"nel": 3, "N": 2}]}),
+            params={"quick": [{"nel": 1, "N": 2}, {"nel": 2, "N": 2}, {"nel": 1, "N": 3, "both": True}], "thorough": [{"nel": 2, "N": 3}, {"nel": 3, "N": 2}, {"nel": 2, "N": 3, "both": True}]}),
 ]
